@@ -121,7 +121,7 @@ class CanaryScanner(logging.Handler):
             self.debug_records += 1
             return
         self.scanned += 1
-        key = (record.name.split('.session.')[0], record.levelname)
+        key = (record.name.split('.session.')[0], record.levelname, '%s:%s' % (record.module, record.funcName))
         self.by_logger[key] = self.by_logger.get(key, 0) + 1
         try:
             text = record.getMessage()
